@@ -26,7 +26,7 @@ FLOORS = {"quick": {"format.phrase": 300000, "history": 50000, "in_words": 5000,
           "thorough": {"format.phrase": 1500000, "history": 200000, "in_words": 50000, "tokens": 10000, "humans.direction": 50000, "bound": 200000, "humans.boundary": 100000, "direction.marker": 200000}}
 REQUIRED_HOOKS = ["DifferenceFormatter.format"]
 EXHAUSTIVE = {"quick": False, "thorough": True}
-TECHNIQUE = "runtime contract on DifferenceFormatter.format with a reference phrase built from the locale's own data (direction templates, documented rounding), totality monitors, history-independence digests"
+TECHNIQUE = "runtime contract on DifferenceFormatter.format with a reference phrase built from the locale's own data (direction templates, documented rounding), totality monitors, history-independence digests; direction-marker monitor (documented English markers, majority markers of each locale); boundary expectation for diff_for_humans under pinned clocks with mixed reference kinds"
 LEVEL_TEXT = ("every phrase produced by DifferenceFormatter.format during the workloads is checked for totality and compared with the "
               "phrase the locale's own templates give for the selected direction and the documented rounding; the thorough tier enumerates "
               "27 locales x 7 units x counts 0..1000 x now/other x past/future x absolute; phrases are re-produced after shuffled call "
